@@ -11,17 +11,20 @@ plus the iterator values a Go program can hold on to:
   with the type assertion `rhs.(*xxxHashTable[K, V])`: an operand of another Go type is never equal.  Otherwise
   `ht.AllMatch(k,v ↦ rhs.Get(k) = (v', true) ∧ ht.eqVal(v, v')) && rhs.AllMatch(k,v ↦ ht.Get(k) = … ht.eqVal …)`:
   each table is searched with **its own** hash function and the values are compared with the **receiver's** `eqVal`.
-* `seq := ht.All()` — the `iter.Seq2` value.  `All()` draws the shuffle when it is called and the returned closure
-  walks that order every time it is run; a sequence can be run any number of times (`for … range seq`, or
-  `iter.Pull2(seq)`), by several traversals at once.
-* `next, stop := iter.Pull2(seq)`: a traversal that is advanced step by step; `next` after the end or after `stop`
-  reports the end.
+* `seq := ht.All()` — the `iter.Seq2` value.  Since the fix "All() lists its slots when the sequence is run, not when
+  it is obtained" a sequence is only a handle on its table: every RUN of it (`for … range seq`, or the first `next` of
+  `iter.Pull2(seq)`) lists the slots of the table as they are at that moment and draws the shuffle then.  A sequence
+  run twice draws twice, a sequence never run draws nothing, a sequence obtained before `Put` / `Delete` / a resize /
+  `DeleteAll` and run afterwards sees the table as it is when it is run.
+* `next, stop := iter.Pull2(seq)`: a traversal that is advanced step by step; it starts (lists and shuffles) at its
+  first `next`; `next` after the end or after `stop` reports the end.
 
-Traversals are values here: a sequence is the listing it was created with and a traversal is what is left of it, so
-two traversals of one table — nested `for range ht.All()` loops, two pulled iterators advanced alternately — cannot
-influence each other.  Changing a table while a traversal of *that* table is in progress is outside the property
-(no method promises anything there): `Put`, `Delete` and `DeleteAll` on table `i` end every sequence and traversal of
-table `i` (`invalid` from then on); traversals of the other tables are unaffected.
+Traversals are values here: a started traversal is what is left of the listing it drew, so two traversals of one table
+— nested `for range ht.All()` loops, two pulled iterators advanced alternately — cannot influence each other.
+Changing a table while a traversal of *that* table is half-way (started, not yet finished) is outside the property (no
+method promises anything there): `Put`, `Delete` and `DeleteAll` on table `i` break the traversals of table `i` that are
+running (`invalid` from then on).  Sequences, traversals that have not started, and traversals of the other tables are
+unaffected.
 -/
 namespace AlgoVerif.C02
 variable {K V σ : Type} [DecidableEq K]
@@ -170,20 +173,28 @@ def Pool.new : List (Cfg K V) → Outcome (List (Obj K V))
 
 /-! ## iterator values -/
 
-/-- an `iter.Seq2` value returned by `All()` of table `tid`: the listing in the order drawn by that call -/
-structure SeqV (K V : Type) where
+/-- an `iter.Seq2` value returned by `All()` of table `tid`: a handle on the table -/
+structure SeqV where
   tid : Nat
-  valid : Bool
-  listing : List (K × V)
+  deriving Repr, DecidableEq
 
-/-- a traversal `iter.Pull2(seq)` of sequence `sid`: what is left of the listing -/
+/-- the life of a traversal `iter.Pull2(seq)`: not started (nothing listed yet), running, over (`next` reported the end,
+or `stop`), broken (its table was changed while it was running) -/
+inductive Phase where
+  | fresh
+  | running
+  | done
+  | broken
+  deriving Repr, DecidableEq, Inhabited
+
+/-- a traversal of table `tid`; `rest`: what is left of the listing it drew when it started -/
 structure PullV (K V : Type) where
-  sid : Nat
+  tid : Nat
+  phase : Phase
   rest : List (K × V)
-  live : Bool
 
 structure Iters (K V : Type) where
-  seqs : List (SeqV K V) := []
+  seqs : List SeqV := []
   pulls : List (PullV K V) := []
 
 /-- outputs of the pool operations -/
@@ -199,45 +210,55 @@ inductive POut (K V : Type) where
   | pair (e : K × V)
   /-- the traversal is over -/
   | done
-  /-- no such table / sequence / traversal, or one that a change of its table has ended -/
+  /-- no such table / sequence / traversal, or a traversal that a change of its table has broken -/
   | invalid
   deriving Repr, DecidableEq
 
-/-- a change of table `i` ends the sequences of table `i` -/
+/-- a change of table `i` breaks the traversals of table `i` that are half-way -/
 def Iters.invalidate (it : Iters K V) (i : Nat) : Iters K V :=
-  { it with seqs := it.seqs.map fun sq => if sq.tid = i then { sq with valid := false } else sq }
+  { it with pulls := it.pulls.map fun pl =>
+      if pl.tid = i ∧ pl.phase = .running then { pl with phase := .broken } else pl }
 
-def Iters.addSeq (it : Iters K V) (i : Nat) (l : List (K × V)) : Iters K V × POut K V :=
-  ({ it with seqs := it.seqs ++ [⟨i, true, l⟩] }, .id it.seqs.length)
+/-- `tables[i].All()`: nothing is listed yet -/
+def Iters.addSeq (it : Iters K V) (i : Nat) : Iters K V × POut K V :=
+  ({ it with seqs := it.seqs ++ [⟨i⟩] }, .id it.seqs.length)
 
-/-- `iter.Pull2(seq)` -/
+/-- `iter.Pull2(seq)`: nothing is listed yet -/
 def Iters.pull (it : Iters K V) (s : Nat) : Iters K V × POut K V :=
   match it.seqs[s]? with
   | none => (it, .invalid)
-  | some sq =>
-    if sq.valid then ({ it with pulls := it.pulls ++ [⟨s, sq.listing, true⟩] }, .id it.pulls.length)
-    else (it, .invalid)
+  | some sq => ({ it with pulls := it.pulls ++ [⟨sq.tid, .fresh, []⟩] }, .id it.pulls.length)
 
-/-- `next()` -/
-def Iters.next (it : Iters K V) (p : Nat) : Iters K V × POut K V :=
+/-- one step of the running traversal `pl` (stored at `p`) -/
+def Iters.advance (it : Iters K V) (p : Nat) (pl : PullV K V) : Iters K V × POut K V :=
+  match pl.rest with
+  | e :: r => ({ it with pulls := it.pulls.set p { pl with rest := r } }, .pair e)
+  | [] => ({ it with pulls := it.pulls.set p { pl with phase := .done } }, .done)
+
+/-- the table a `next` of traversal `p` would list now: `p` has not started yet -/
+def Iters.freshTid (it : Iters K V) (p : Nat) : Option Nat :=
+  match it.pulls[p]? with
+  | some pl => if pl.phase = .fresh then some pl.tid else none
+  | none => none
+
+/-- `next()`; `listing`: what the table lists now, used only if the traversal starts with this call -/
+def Iters.next (it : Iters K V) (p : Nat) (listing : List (K × V)) : Iters K V × POut K V :=
   match it.pulls[p]? with
   | none => (it, .invalid)
   | some pl =>
-    match it.seqs[pl.sid]? with
-    | none => (it, .invalid)
-    | some sq =>
-      if !sq.valid then (it, .invalid)
-      else if !pl.live then (it, .done)
-      else
-        match pl.rest with
-        | e :: r => ({ it with pulls := it.pulls.set p { pl with rest := r } }, .pair e)
-        | [] => ({ it with pulls := it.pulls.set p { pl with live := false } }, .done)
+    match pl.phase with
+    | .broken => (it, .invalid)
+    | .done => (it, .done)
+    | .running => it.advance p pl
+    | .fresh => it.advance p { pl with phase := .running, rest := listing }
 
 /-- `stop()` -/
 def Iters.stop (it : Iters K V) (p : Nat) : Iters K V × POut K V :=
   match it.pulls[p]? with
   | none => (it, .invalid)
-  | some pl => ({ it with pulls := it.pulls.set p { pl with live := false } }, .unit)
+  | some pl =>
+    if pl.phase = .broken then (it, .unit)
+    else ({ it with pulls := it.pulls.set p { pl with phase := .done } }, .unit)
 
 /-! ## operations on the pool -/
 
@@ -361,11 +382,15 @@ def Pool.step (sh : Shuffle σ) (s : PState K V σ) : POp K V → Outcome (PStat
   | .seq i =>
     match s.objs[i]? with
     | none => .ok (s, .invalid)
-    | some o =>
-      .ok ({ s with g := (Tab.all sh o.tab s.g).2, it := (s.it.addSeq i (Tab.all sh o.tab s.g).1).1 },
-           (s.it.addSeq i (Tab.all sh o.tab s.g).1).2)
+    | some _ => .ok ({ s with it := (s.it.addSeq i).1 }, (s.it.addSeq i).2)
   | .pull sq => .ok ({ s with it := (s.it.pull sq).1 }, (s.it.pull sq).2)
-  | .next p => .ok ({ s with it := (s.it.next p).1 }, (s.it.next p).2)
+  | .next p =>
+    -- the first `next` of a traversal runs the sequence: the table is listed (and the shuffle drawn) now
+    match (s.it.freshTid p).bind fun tid => s.objs[tid]? with
+    | some o =>
+      .ok ({ s with g := (Tab.all sh o.tab s.g).2, it := (s.it.next p (Tab.all sh o.tab s.g).1).1 },
+           (s.it.next p (Tab.all sh o.tab s.g).1).2)
+    | none => .ok ({ s with it := (s.it.next p []).1 }, (s.it.next p []).2)
   | .stop p => .ok ({ s with it := (s.it.stop p).1 }, (s.it.stop p).2)
 
 /-- the trace of a history on a pool -/
@@ -382,8 +407,9 @@ def Pool.reach (sh : Shuffle σ) : PState K V σ → List (POp K V) → Option (
 
 /-! ## the Spec of a pool: finite maps, the same iterator values
 
-The only freedom the Spec has is the order of a listing: `All()` may produce the pairs of the map in any order
-(`choice`, a permutation of the map).  Every other output is a function of the maps. -/
+The only freedom the Spec has is the order of a listing: a run of `All()` — the operation `all`, or the first `next` of a
+traversal — may produce the pairs of the map in any order (`choice`, a permutation of the map as it is then).  Every
+other output is a function of the maps. -/
 namespace Spec
 
 /-- a table of the Spec: what `Equal` depends on besides the contents, and the contents -/
@@ -438,18 +464,22 @@ def pstep (s : PSState K V) (op : POp K V) (choice : List (K × V)) : PSState K 
   | .seq i =>
     match s.tabs[i]? with
     | none => (s, .invalid)
-    | some _ => ({ s with it := (s.it.addSeq i choice).1 }, (s.it.addSeq i choice).2)
+    | some _ => ({ s with it := (s.it.addSeq i).1 }, (s.it.addSeq i).2)
   | .pull sq => ({ s with it := (s.it.pull sq).1 }, (s.it.pull sq).2)
-  | .next p => ({ s with it := (s.it.next p).1 }, (s.it.next p).2)
+  | .next p => ({ s with it := (s.it.next p choice).1 }, (s.it.next p choice).2)
   | .stop p => ({ s with it := (s.it.stop p).1 }, (s.it.stop p).2)
 
-/-- the listing chosen for an `All()` is a permutation of the map -/
+/-- the listing chosen for a run of `All()` is a permutation of the map as it is at this step -/
 def choiceOK (s : PSState K V) (op : POp K V) (choice : List (K × V)) : Prop :=
   match op with
-  | .all i | .seq i =>
+  | .all i =>
     match s.tabs[i]? with
     | some t => choice.Perm t.map
     | none => True
+  | .next p =>
+    match (s.it.freshTid p).bind fun tid => s.tabs[tid]? with
+    | some t => choice.Perm t.map
+    | none => choice = []
   | _ => True
 
 /-- a trace the Spec admits: every operation returned (`ok`) the output of the Spec for some admissible listing -/
@@ -459,14 +489,13 @@ def Admits : PSState K V → List (POp K V) → List (Outcome (POut K V)) → Pr
     ∃ choice, choiceOK s op choice ∧ (pstep s op choice).2 = o ∧ Admits (pstep s op choice).1 ops tr
   | _, _, _ => False
 
-/-- the pairs a valid sequence holds are the pairs of its table -/
-def SeqsOK (s : PSState K V) : Prop :=
-  ∀ sq ∈ s.it.seqs, sq.valid = true → ∃ t, s.tabs[sq.tid]? = some t ∧ sq.listing.Perm t.map
-
-/-- a traversal belongs to a sequence, and what it has left is a suffix of that sequence's listing: it yields pairs
-of the listing only, in the listing's order, each position once -/
-def PullsOK (s : PSState K V) : Prop :=
-  ∀ pl ∈ s.it.pulls, ∃ sq, s.it.seqs[pl.sid]? = some sq ∧ pl.rest <:+ sq.listing
+/-- every sequence and every traversal is a handle on a table of the pool, and a traversal that is half-way is
+traversing its table AS IT IS NOW: what it has left is a suffix of a permutation of the table's map (the listing it
+drew when it started; no change of the table since, or it would be broken) -/
+def ItersOK (s : PSState K V) : Prop :=
+  (∀ sq ∈ s.it.seqs, ∃ t, s.tabs[sq.tid]? = some t) ∧
+  ∀ pl ∈ s.it.pulls, ∃ t, s.tabs[pl.tid]? = some t ∧
+    (pl.phase = .running → ∃ l : List (K × V), l.Perm t.map ∧ pl.rest <:+ l)
 
 end Spec
 
